@@ -108,7 +108,13 @@ EXPLANATION = (
     "bytes of their union; memcpy, struct assignment and member stores move bytes) for the four mode transitions (previous / pending "
     "channel hopping or not), every pending allocation length 1..64 and previous lengths on both sides of it; afterwards the hopping "
     "flag must equal the pending one and the parameters rfch_get_params() reads (hsn, maio, n, ma[0..n-1], or h0.arfcn) the pending "
-    "description's -- a copy selected by the previous flag is reported with the transition that leaves a stale allocation.")
+    "description's -- a copy selected by the previous flag is reported with the transition that leaves a stale allocation. "
+    "R12: Transceiver.get_rx_freq / get_tx_freq are folded with a hopping configuration installed for FN = 0, 1, 51, 2715647 and must "
+    "return the Rx / Tx element of resolve(FN) -- FN = 0 is a frame number like any other. R13: the TRXC SETFH handler is folded for "
+    "N = 1, 2, 32, 33, 63, 64 channels: enable_fh must receive exactly the N commanded (Rx, Tx) pairs in order and the constructor + "
+    "resolve() folded on them select channel (FN + MAIO) mod N of the commanded list. R14: every L1CTL handler of firmware layer1 that "
+    "writes the live / pending channel description is evaluated on the byte machine on witness messages (hopping N = 1, 2, 64, non-hopping): "
+    "flag, hsn, maio, n, ma[0..n-1] / the ARFCN stored must be the host integers whose big-endian octets the message carries.")
 ASSUMPTIONS = [
     "spec/hopping.json is a faithful transcription of TS 45.002 table 6.2.3 and of the algorithm of clause 6.2.3",
     "NBIN is the number of bits needed to represent N (TS 45.002 6.2.3), so 2^NBIN - 1 == (1 << N.bit_length()) - 1; the mask is "
@@ -137,6 +143,13 @@ ASSUMPTIONS = [
     "little-endian scalars -- only the relative positions inside `l1s.dedicated` matter); the pending description is complete when the "
     "starting time is reached (C07.R8 for its writers); external functions called on the way (printf) do not touch the description; "
     "the members `st_<x>` of the channel description are the pending counterparts of the members `<x>` (layer1/sync.h)",
+    "C07.R14: L1CTL carries 16-bit fields in network byte order (include/l1ctl_proto.h; layer23 writes them with htons) and the target "
+    "is little-endian (ntohs is evaluated from the firmware's own byteorder.h / swab.h); the message structs are laid out as the byte "
+    "machine lays them out (packed == natural alignment for them); the message member named like the description's hopping flag is the "
+    "message's flag, hsn / maio / n / ma[] name the same things on both sides; functions defined outside the translation unit do not "
+    "write the channel description",
+    "C07.R12 / R13: consteval is a faithful evaluator of the Python subset it accepts; the frequency list of SETFH is ascending (as the "
+    "command documents); Transceiver.enable_fh hands its arguments to HoppingParams unchanged (C07.R6 store rule)",
 ]
 
 F_GSM = rel("gsm_shared")
@@ -2096,6 +2109,86 @@ def _memo_check(L, repo, q, leaf, conds, fnp, line):
     L.floor("C07.R6", "stores of the memo %s" % base[1], nw, 1)
 
 
+GETTER_FNS = (0, 1, 51, G.HYPERFRAME - 1)        # FN = 0 is a frame number like any other; T3 = 0; the last frame
+
+
+def r6_getter_fold(L, repo):
+    """C07.R12 decides the clause "the selected channel is MA[MAI] ... for every TDMA frame number" at the point where
+    the simulator consumes it: Transceiver.get_rx_freq(fn) / get_tx_freq(fn) with a hopping configuration installed.
+    The getter's source is folded by the whitelisted evaluator (consteval; nothing of the repository runs) with
+    `self.fh` an object whose resolve() is recorded and answers a distinct (Rx, Tx) pair per frame number, the fixed
+    tuning a pair of other values, for the frame numbers 0, 1, 51 and 2715647.  Required: the Rx (Tx) element of
+    resolve(fn) for the frame number given.  A getter that returns the fixed tuning (or anything else) for one of these
+    frames makes the transceiver leave the hopping sequence in that frame -- it does not select MA[MAI] there.  Decided
+    on values, not on the shape of the guard; a body outside the evaluator's vocabulary (a memo kept on the object,
+    ...) gives no verdict here and is left to the symbolic rule R6."""
+    from consteval import Opaque
+    skip = (Unknown, TypeError, ValueError, ArithmeticError, LookupError, AttributeError, RecursionError)
+    n, notes = 0, L.extra.setdefault("getter_fold", {})
+    for name, idx in (("get_rx_freq", 0), ("get_tx_freq", 1)):
+        ci, fd = repo.need_method("transceiver", "Transceiver", name)
+        q = "Transceiver.%s" % name
+        L.unit(F_TRX)
+        L.fn(F_TRX, q)
+        ps = [a.arg for a in fd.args.args]
+        if len(ps) != 2:
+            raise AnalysisError("%s: expected (self, fn)" % q)
+        bad, k = [], 0
+        try:
+            for fn in GETTER_FNS:
+                calls = []
+                ev = Ev(repo, ci.mod, self_cls=ci)
+                env = dict(ev._bindargs(fd, ["<self>", fn], {}))
+                del env[ps[0]]
+                env.update({"self._rx_freq": Opaque("fixed Rx tuning"), "self._tx_freq": Opaque("fixed Tx tuning"),
+                            "self.fh": Opaque("self.fh")})
+                ev.env = env
+
+                def res(a, calls=calls):
+                    calls.append(tuple(a))
+                    return (Opaque("resolve(%s)[0]" % ", ".join(map(repr, a))), Opaque("resolve(%s)[1]" % ", ".join(map(repr, a))))
+                ev.hooks = {"self.fh.resolve": res}
+                try:
+                    r = ev.run_block(fd.body)
+                    got = r[1] if isinstance(r, tuple) and len(r) == 2 and r[0] == "ret" else None
+                except Raised as e:
+                    got = "<raises %s>" % e.cls
+                want = Opaque("resolve(%d)[%d]" % (fn, idx))
+                k += 1
+                if got != want:
+                    bad.append((fn, getattr(got, "text", repr(got))))
+        except skip as e:
+            notes[q] = "not folded (%s); left to C07.R6" % str(e)[:80]
+            continue
+        n += k
+        L.ob("C07.R12", F_TRX, q, "%s(FN) with frequency hopping configured returns self.fh.resolve(FN)[%d] for FN = %s" % (
+            name, idx, ", ".join(map(str, GETTER_FNS))), "resolve(FN)[%d] for all %d frame numbers" % (idx, k),
+            "resolve(FN)[%d] for all %d frame numbers" % (idx, k) if not bad else "; ".join(
+                "FN = %d: %s" % b for b in bad), not bad, fd.lineno)
+    if not notes:
+        L.floor("C07.R12", "getter folds (2 getters x %d frame numbers)" % len(GETTER_FNS), n, 2 * len(GETTER_FNS))
+
+
+def _domain_truth(c, fnp):
+    """truth value of a path condition of a frequency getter for every call of the property's domain -- a hopping
+    configuration installed (`self.fh` is not None) and `fn` a frame number (an integer, not None) -- or None when
+    that does not decide it"""
+    k = c[0]
+    if k == "c":
+        return bool(c[1])
+    if k == "not":
+        v = _domain_truth(c[1], fnp)
+        return None if v is None else not v
+    if k in ("and", "or"):
+        vs = [_domain_truth(x, fnp) for x in c[1:]]
+        if k == "and":
+            return False if any(v is False for v in vs) else True if all(v is True for v in vs) else None
+        return True if any(v is True for v in vs) else False if all(v is False for v in vs) else None
+    if k == "cmp" and c[1] in ("==", "is", "!=", "is not") and V("None") in c[2:] and (V("self.fh") in c[2:] or V(fnp) in c[2:]):
+        return c[1] in ("!=", "is not")
+    return None
+
+
 def r6_getters(L, repo):
     mod = repo.mod("transceiver")
     L.unit(F_TRX)
@@ -2124,6 +2217,8 @@ def r6_getters(L, repo):
                 continue
             if any((c == nofh and pol) or (c[0] == "and" and pol and nofh in c[1:]) for c, pol in conds):
                 continue
+            if any(_domain_truth(c, ps[1]) not in (None, pol) for c, pol in conds):
+                continue            # a path no call of the property's domain takes (hopping configured, fn a frame number)
             if not calls:
                 continue            # already reported
             _memo_check(L, repo, q, leaf, conds, ps[1], fd.lineno)
@@ -3583,6 +3678,7 @@ class _ByteMachine:
         self.depth = 0
         self.locals = {}
         self.member_bases = {}          # id(RecordDecl) -> {(region, offset)} of the objects of that record accessed
+        self.poison = False             # True: the undetermined result of an external call may be stored (the bytes become unreadable)
 
     # -- types ---------------------------------------------------------------
     def tdesc(self, t, owner=None):
@@ -3691,6 +3787,8 @@ class _ByteMachine:
             raise AnalysisError("byte machine: an object of a type without known size is read; unclassifiable")
         if d[0] == "ptr":
             v = self._byte(region, off)
+            if isinstance(v, tuple) and v[0] == "undef":
+                raise AnalysisError("byte machine: a pointer that is not determined is read; unclassifiable")
             if isinstance(v, tuple) and v[0] != "cont":
                 return v
             bs = [self._byte(region, off + i) for i in range(4)]
@@ -3713,6 +3811,10 @@ class _ByteMachine:
         if isinstance(v, tuple) and v[0] == "agg":
             for i, b in enumerate(v[1]):
                 self.mem[(region, off + i)] = b
+            return
+        if v is None and self.poison and d is not None and d[0] in ("int", "ptr"):
+            for i in range(4 if d[0] == "ptr" else d[1]):
+                self.mem[(region, off + i)] = ("undef",)        # reading it back is an error, not a guess
             return
         if v is None:
             raise AnalysisError("byte machine: a value that is not determined is stored; unclassifiable")
@@ -3972,6 +4074,8 @@ class _ByteMachine:
     def call(self, n):
         ks = kids(n)
         name = ctext(ks[0])
+        if name == "__builtin_constant_p":
+            return 0                    # either answer is allowed for an expression that is not a constant; nothing is evaluated
         args = [self.eval(a) for a in ks[1:]]
         if name in COPY_FUNCS and len(args) == 3:
             self.copy(args[0], args[1], args[2])
@@ -4018,6 +4122,51 @@ class _ByteMachine:
         finally:
             self.depth -= 1
             self.frames.pop()
+
+    def _switch(self, st):
+        """switch over a determined integer; the labels are statements of the switch's own block (a label inside a nested
+        statement -- Duff's device -- and GNU case ranges are outside the vocabulary)"""
+        inner = [c for c in st["inner"] if kind(c) is not None]
+        body = inner[-1]
+        v = self._int(self.eval(inner[-2]), inner[-2])
+        if kind(body) != "CompoundStmt":
+            raise AnalysisError("byte machine: switch without a block; unclassifiable")
+
+        def deep(n, top):
+            for c in kids(n):
+                if kind(c) == "SwitchStmt":
+                    continue
+                if kind(c) in ("CaseStmt", "DefaultStmt") and not top:
+                    raise AnalysisError("byte machine: case label inside a nested statement; unclassifiable")
+                deep(c, top and kind(c) in ("CaseStmt", "DefaultStmt"))
+        deep(body, True)
+        stmts = kids(body)
+        start = dflt = None
+        for i, x in enumerate(stmts):
+            while kind(x) in ("CaseStmt", "DefaultStmt"):
+                xs = [c for c in kids(x) if kind(c) is not None]
+                if kind(x) == "DefaultStmt":
+                    dflt = i if dflt is None else dflt
+                else:
+                    if len(xs) != 2:
+                        raise AnalysisError("byte machine: case range; unclassifiable")
+                    cv = self.tu.fold(xs[0])
+                    if cv is None:
+                        raise AnalysisError("byte machine: case label `%s` does not fold; unclassifiable" % ctext(xs[0])[:40])
+                    if cv == v and start is None:
+                        start = i
+                x = xs[-1]
+        start = dflt if start is None else start
+        if start is None:
+            return
+        try:
+            for x in stmts[start:]:
+                while kind(x) in ("CaseStmt", "DefaultStmt"):
+                    x = [c for c in kids(x) if kind(c) is not None][-1]
+                self.exec(x)
+        except _Flow as e:
+            if e.what != "break":
+                raise
 
     def _cond(self, c):
         v = self.eval(c)
@@ -4078,6 +4227,8 @@ class _ByteMachine:
                         raise
                 if inc:
                     self.eval(inc)
+        elif k == "SwitchStmt":
+            self._switch(st)
         elif k == "ReturnStmt":
             ks = kids(st)
             raise _Flow("return", self.eval(ks[0]) if ks else None)
@@ -4214,21 +4365,9 @@ def _takeover_scenarios(bm, flat, live, pend, flag, pflag, h0, ph0):
                            mem, old_h, new_h, pn)
 
 
-def r11_takeover(L, tier):
-    """C07.R11 decides a necessary condition of the firmware clause "the selected channel is MA[MAI] for the configured
-    HSN, MAIO, mobile allocation" across a starting time: rfch_get_params() reads the hopping flag, and either
-    h1.hsn / maio / n / ma[0..n-1] or h0.arfcn, from the live channel description; the pending description (the `st_`
-    members L1CTL_DM_FREQ_REQ fills) is the configured one from the starting time on.  So every function that takes the
-    pending description over -- it reads a pending member and writes a live one; found by who-reads / who-writes over the
-    member declarations, not by name -- must leave, for each of the four mode transitions (previous channel hopping or
-    not x pending channel hopping or not), every pending allocation length 1..64 and previous lengths on both sides of it:
-    the live flag equal (as a truth value) to the pending flag and, pending hopping, hsn, maio, n and ma[0..n-1] equal to
-    the pending descriptor's, pending non-hopping, every member of h0 equal to the pending h0's.  Decided by constant
-    folding: the function is evaluated on a byte memory (_ByteMachine: h0 / h1 share the bytes of their union, memcpy and
-    struct assignment move bytes, sizes are sizeof of the natural-alignment layout) for each scenario, every live byte
-    differing from the pending byte at its position; a scenario of the domain that leaves a parameter rfch_get_params()
-    reads different from the pending one is the violation, reported with the transition and the member.  A function the
-    machine cannot evaluate is ANALYSIS-ERROR."""
+def _channel_roles(L):
+    """which members of the channel description are what, decided by who reads them: (live descriptor, pending
+    descriptor, live flag, pending flag, live non-hopping alternative, pending one, pending names, live names)"""
     head = _layer1_tu(L, "rfch.c")
     L.unit(F_SYNC_H)
     hb = _ByteMachine(head)
@@ -4266,6 +4405,25 @@ def r11_takeover(L, tier):
     h0, ph0 = h0[0], prefix + h0[0]
     pending_names = {n for n in flat if n.startswith(prefix) and n[len(prefix):] in flat}
     live_names = {flag, live, h0}
+    return live, pend, flag, pflag, h0, ph0, pending_names, live_names
+
+
+def r11_takeover(L, tier):
+    """C07.R11 decides a necessary condition of the firmware clause "the selected channel is MA[MAI] for the configured
+    HSN, MAIO, mobile allocation" across a starting time: rfch_get_params() reads the hopping flag, and either
+    h1.hsn / maio / n / ma[0..n-1] or h0.arfcn, from the live channel description; the pending description (the `st_`
+    members L1CTL_DM_FREQ_REQ fills) is the configured one from the starting time on.  So every function that takes the
+    pending description over -- it reads a pending member and writes a live one; found by who-reads / who-writes over the
+    member declarations, not by name -- must leave, for each of the four mode transitions (previous channel hopping or
+    not x pending channel hopping or not), every pending allocation length 1..64 and previous lengths on both sides of it:
+    the live flag equal (as a truth value) to the pending flag and, pending hopping, hsn, maio, n and ma[0..n-1] equal to
+    the pending descriptor's, pending non-hopping, every member of h0 equal to the pending h0's.  Decided by constant
+    folding: the function is evaluated on a byte memory (_ByteMachine: h0 / h1 share the bytes of their union, memcpy and
+    struct assignment move bytes, sizes are sizeof of the natural-alignment layout) for each scenario, every live byte
+    differing from the pending byte at its position; a scenario of the domain that leaves a parameter rfch_get_params()
+    reads different from the pending one is the violation, reported with the transition and the member.  A function the
+    machine cannot evaluate is ANALYSIS-ERROR."""
+    live, pend, flag, pflag, h0, ph0, pending_names, live_names = _channel_roles(L)
     d = os.path.join(L.repo, FW_LAYER1)
     try:
         names = sorted(x for x in os.listdir(d) if x.endswith(".c"))
@@ -4367,6 +4525,218 @@ def _takeover_function(L, tu, file, fd, rec, flat, live, pend, flag, pflag, h0, 
     L.ob("C07.R11", file, fname, key, want,
          "folded for %d scenarios (4 mode transitions x pending n 1..64 x previous n): all as required" % total if bad is None
          else bad + " -- rfch_get_params() selects the channel from a description that was never configured", bad is None, line)
+
+
+# ------------------------------------------------------------------------------
+# R14: the byte order of the channel description an L1CTL message installs
+
+L1CTL_N = (1, 2, 64)                    # allocation lengths of the witness messages
+L1CTL_HSN, L1CTL_MAIO = 21, 42
+L1CTL_ARFCN0 = 600                      # 0x0258 .. 0x0297: both octets differ for each of the 64 entries
+
+
+def _l1ctl_payload(tu, bm, flag):
+    """the record of the message the handler read that carries a hopping flag (same member name as the channel
+    description's), a hopping descriptor (hsn, maio, n, ma[]) and its non-hopping alternative at the same offset:
+    (frame offset, flat fields, descriptor member, its fields, alternative member, its 16-bit member)"""
+    recs = {id(r): r for r in walk(tu.ast) if kind(r) == "RecordDecl"}
+    found = []
+    for rid, bases in bm.member_bases.items():
+        r = recs.get(rid)
+        if r is None:
+            continue
+        for (region, off) in bases:
+            if region != "frame":
+                continue
+            pf = bm.flat_fields(r)
+            h1 = [m for m, (o, d) in pf.items() if d is not None and d[0] == "rec" and
+                  {"hsn", "maio", "n", "ma"} <= set(bm.flat_fields(d[1]))]
+            if len(h1) != 1 or flag not in pf or pf[flag][1] is None or pf[flag][1][0] != "int":
+                continue
+            sub = bm.flat_fields(pf[h1[0]][1][1])
+            if sub["ma"][1] is None or sub["ma"][1][0] != "arr" or sub["ma"][1][1] != ("int", 2, False):
+                continue
+            alt = []
+            for m, (o, d) in pf.items():
+                if m != h1[0] and o == pf[h1[0]][0] and d is not None and d[0] == "rec":
+                    ints = [(k, v) for k, v in bm.flat_fields(d[1]).items() if v[1] is not None and v[1][0] == "int"]
+                    if len(ints) == 1 and ints[0][1][1][1] == 2:
+                        alt.append((m, ints[0][1][0]))
+            if len(alt) == 1:
+                found.append((off, pf, h1[0], sub, alt[0][0], alt[0][1]))
+    if len(found) != 1:
+        raise AnalysisError("%d records read from the message carry a hopping flag `%s`, a descriptor (hsn, maio, n, ma[]) and a "
+                            "non-hopping alternative; unclassifiable" % (len(found), flag))
+    return found[0]
+
+
+def _l1ctl_run(tu, fd, rec, frame):
+    """the handler evaluated on the byte machine for the message bytes `frame` (offset -> byte; 1 elsewhere); every byte
+    of the channel description is 0xEE before"""
+    bm = _ByteMachine(tu)
+    bm.poison = True
+    prm = tu.fparams(fd)[0]
+    pd = bm._pointee(prm)
+    if pd is None or pd[0] != "rec":
+        raise AnalysisError("%s(): the message parameter's record type is not known; unclassifiable" % fd.get("name"))
+    mf = bm.flat_fields(pd[1])
+    ptrs = {o: nm for nm, (o, d) in mf.items() if d is not None and d[0] == "ptr" and d[1] in ("unsigned char", "uint8_t", "char")}
+    byte = ("int", 1, False)
+
+    def background(region, off):
+        if region == "frame":
+            return frame.get(off, 1) if 0 <= off < 4096 else None
+        if region == "msg":
+            if off in ptrs:
+                return ("p", "frame", 1024 if ptrs[off] == "tail" else 0, byte)
+            if any(o < off < o + 4 for o in ptrs):
+                return ("cont",)
+            nm = [n for n, (o, d) in mf.items() if d is not None and d[0] == "int" and o <= off < o + d[1] and n in ("len", "data_len")]
+            if nm:
+                return (1024 >> (8 * (off - mf[nm[0]][0]))) & 0xFF
+            return None
+        bases = bm.member_bases.get(id(rec), set())
+        if len(bases) == 1 and region == next(iter(bases))[0]:
+            return 0xEE
+        return None
+    bm.background = background
+    bm.run(fd, [("p", "msg", 0, pd)])
+    return bm
+
+
+def r14_l1ctl_byte_order(L, tier):
+    """C07.R14 decides a necessary condition of the firmware clause "rfch_get_params() returns MA[MAI] for the configured
+    mobile allocation" at the place the allocation is configured: the L1CTL handlers (functions of firmware layer1 that
+    take a message buffer and write the live or the pending channel description; found by who-writes over the member
+    declarations, not by name).  L1CTL carries 16-bit fields in network byte order; rfch_get_params() returns the stored
+    ma[] entry / h0 ARFCN as a host integer.  Each handler is evaluated on the byte machine of R11 (little-endian
+    host, as the target; ntohs() evaluated from its own source) on witness messages -- hopping with N = 1, 2, 64
+    channels whose ARFCNs have two different octets, and non-hopping -- and the description it leaves must hold: the
+    flag as a truth value, hsn, maio, n and, for i < n, ma[i] equal to the ARFCN whose big-endian octets the message
+    carries at entry i (non-hopping: the single ARFCN).  A handler that moves the octets without conversion (memcpy,
+    struct copy) stores byte-swapped ARFCNs: from the take-over on the firmware tunes to channels that are not in the
+    configured MA.  Every handler is held to the same requirement, so siblings (DM_EST_REQ / DM_FREQ_REQ) agree.  A
+    handler the machine cannot evaluate is ANALYSIS-ERROR."""
+    live, pend, flag, pflag, h0, ph0, pending_names, live_names = _channel_roles(L)
+    groups = (("live", flag, live, h0), ("pending", pflag, pend, ph0))
+    d = os.path.join(L.repo, FW_LAYER1)
+    try:
+        names = sorted(x for x in os.listdir(d) if x.endswith(".c"))
+    except OSError as e:
+        raise AnalysisError("firmware layer1 directory unreadable: %s" % e)
+    pat = re.compile(r"\b(%s)\b" % "|".join(re.escape(m) for m in sorted({live, pend, h0, ph0})))
+    nfun, seen = 0, set()
+    for name in names:
+        try:
+            with open(os.path.join(d, name), errors="replace") as fh:
+                src = fh.read()
+        except OSError as e:
+            raise AnalysisError("%s unreadable: %s" % (name, e))
+        if not pat.search(strip_comments(src)):
+            continue
+        tu = _layer1_tu(L, name)
+        file = "%s/%s" % (FW_LAYER1, name)
+        bm0 = _ByteMachine(tu)
+        rec, flat, _ = _channel_record(tu, bm0)
+        fids = _channel_ids(bm0, rec)
+        for fn, fd in sorted(tu.functions.items()):
+            if not any(kind(c) == "CompoundStmt" for c in kids(fd)) or ((fd.get("_file") or "", fn) in seen):
+                continue
+            ps = tu.fparams(fd)
+            if len(ps) != 1 or fd.get("variadic") or not re.fullmatch(r"(const )?struct msgb \*( const)?", ps[0].get("type", {}).get("qualType") or ""):
+                continue
+            wr = set()
+            for n in walk(tu.body(fd)):
+                if kind(n) == "MemberExpr" and n.get("referencedMemberDecl") in fids:
+                    nm = fids[n["referencedMemberDecl"]]
+                    if _member_access(tu, n) in ("write", "both") and nm in (live, pend, h0, ph0):
+                        wr.add(nm)
+            if not wr:
+                continue
+            seen.add((fd.get("_file") or "", fn))
+            L.fn(file, fn)
+            nfun += 1
+            _l1ctl_handler(L, tu, file, fd, rec, flat, [g for g in groups if {g[2], g[3]} & wr], flag)
+    L.floor("C07.R14", "L1CTL handlers that write the live / pending channel description (DM_EST_REQ, DM_FREQ_REQ)", nfun, 2)
+
+
+def _l1ctl_handler(L, tu, file, fd, rec, flat, groups, flag):
+    fname = fd.get("name")
+    line = tu.line(fd)
+    probe = _l1ctl_run(tu, fd, rec, {})                 # every octet 1: hopping, one channel -- shows which records are read
+    po, pf, mh1, sub, mh0, o16 = _l1ctl_payload(tu, probe, flag)
+    fo = po + pf[flag][0]
+    b1 = po + pf[mh1][0]
+    arf = lambda i: L1CTL_ARFCN0 + i
+
+    def message(n):
+        fr = {fo: 1 if n else 0}
+        for i in range(1, pf[flag][1][1]):
+            fr[fo + i] = 0
+        if n:
+            fr.update({b1 + sub["hsn"][0]: L1CTL_HSN, b1 + sub["maio"][0]: L1CTL_MAIO, b1 + sub["n"][0]: n})
+            for i in range(sub["ma"][1][2]):
+                v = arf(i) if i < n else 0
+                fr[b1 + sub["ma"][0] + 2 * i], fr[b1 + sub["ma"][0] + 2 * i + 1] = v >> 8, v & 0xFF
+        else:
+            fr[po + pf[mh0][0] + o16], fr[po + pf[mh0][0] + o16 + 1] = arf(0) >> 8, arf(0) & 0xFF
+        return fr
+    for (what, gflag, gdesc, gh0) in groups:
+        dsub = probe.flat_fields(flat[gdesc][1][1])
+        if not {"hsn", "maio", "n", "ma"} <= set(dsub) or dsub["ma"][1][0] != "arr":
+            raise AnalysisError("struct %s lost one of hsn / maio / n / ma[]; unclassifiable" % DESC)
+        el = probe.sizeof(dsub["ma"][1][1])[0]
+        h0i = [(k, v) for k, v in probe.flat_fields(flat[gh0][1][1]).items() if v[1] is not None and v[1][0] == "int"]
+        if len(h0i) != 1:
+            raise AnalysisError("`%s` has %d integer members; unclassifiable" % (gh0, len(h0i)))
+        bad, total = None, 0
+        for n in L1CTL_N + (0,):
+            bm = _l1ctl_run(tu, fd, rec, message(n))
+            bases = bm.member_bases.get(id(rec), set())
+            if len(bases) != 1:
+                raise AnalysisError("%s(): %d objects of the channel description's type are accessed; unclassifiable" % (fname, len(bases)))
+            (breg, boff), = bases
+
+            def rd(o, size, bm=bm, breg=breg, boff=boff):
+                bs = [bm._byte(breg, boff + o + i) for i in range(size)]
+                if not all(isinstance(b, int) for b in bs):
+                    raise AnalysisError("%s(): the channel description holds bytes that are not determined; unclassifiable" % fname)
+                return sum(b << (8 * i) for i, b in enumerate(bs))
+            total += 1
+            diffs = []
+            lo = flat[gdesc][0]
+            label = "hopping, %d channel%s (ARFCN %d%s)" % (n, "" if n == 1 else "s", arf(0), "..%d" % arf(n - 1) if n > 1 else "") \
+                if n else "non-hopping (ARFCN %d)" % arf(0)
+            if bool(rd(flat[gflag][0], flat[gflag][1][1])) != bool(n):
+                diffs.append("`%s` is %d" % (gflag, rd(flat[gflag][0], flat[gflag][1][1])))
+            elif n:
+                for k, w in (("hsn", L1CTL_HSN), ("maio", L1CTL_MAIO), ("n", n)):
+                    o, dd = dsub[k]
+                    if rd(lo + o, dd[1]) != w:
+                        diffs.append("`%s.%s` is %d, the message carries %d" % (gdesc, k, rd(lo + o, dd[1]), w))
+                wrong = [i for i in range(n) if rd(lo + dsub["ma"][0] + i * el, el) != arf(i)]
+                if wrong:
+                    i = wrong[0]
+                    g = rd(lo + dsub["ma"][0] + i * el, el)
+                    diffs.append("`%s.ma[%d]` is %d (0x%04x), the message carries ARFCN %d (octets %02x %02x)%s%s" % (
+                        gdesc, i, g, g, arf(i), arf(i) >> 8, arf(i) & 0xFF,
+                        ": the octets were stored without ntohs()" if g == ((arf(i) & 0xFF) << 8 | arf(i) >> 8) else "",
+                        "; %d of %d entries differ" % (len(wrong), n) if n > 1 else ""))
+            else:
+                k, (o, dd) = h0i[0]
+                g = rd(flat[gh0][0] + o, dd[1])
+                if g != arf(0):
+                    diffs.append("`%s.%s` is %d (0x%04x), the message carries ARFCN %d (octets %02x %02x)" % (
+                        gh0, k, g, g, arf(0), arf(0) >> 8, arf(0) & 0xFF))
+            if diffs and bad is None:
+                bad = "%s: after %s() %s" % (label, fname, "; ".join(diffs[:3]))
+        L.ob("C07.R14", file, fname,
+             "%s() installs the %s channel description from an L1CTL message (network byte order): the flag, hsn, maio, n and every "
+             "ma[i], i < n (non-hopping: the ARFCN) are stored as host integers equal to what the message carries" % (fname, what),
+             "`%s` as a truth value, `%s`.hsn / maio / n / ma[0..n-1], `%s` equal to the message's values" % (gflag, gdesc, gh0),
+             "folded for %d witness messages (hopping N = %s; non-hopping): all as required" % (total, ", ".join(map(str, L1CTL_N)))
+             if bad is None else bad + " -- rfch_get_params() returns ARFCNs that are not in the configured mobile allocation",
+             bad is None, line)
 
 
 # ------------------------------------------------------------------------------
@@ -4592,6 +4962,103 @@ def r7_witnesses(L, repo, spec):
     L.extra["channel_selection_witnesses"] = {"folded": folded, "status": status}
     if status == "complete":
         L.floor("C07.R7", "channel-selection witnesses folded (N, HSN, MAIO, FN)", folded, 5000)
+
+
+# ------------------------------------------------------------------------------
+# R13 (simulator): the Mobile Allocation a TRXC SETFH command installs
+
+SETFH_N = (1, 2, 32, 33, 63, 64)        # channels: the ends of the domain, around half of it (a limit applied to the flat Rx/Tx list)
+SETFH_MAIO = 1
+
+
+def r13_setfh_allocation(L, repo, spec):
+    """C07.R13 decides the clause "for every ... mobile allocation of 1..64 channels ... the selected channel is
+    MA[MAI]" for the allocation as the simulator receives it: the TRXC handler of `CMD SETFH <HSN> <MAIO> <RXF1> <TXF1>
+    ... <RXFN> <TXFN>` (CTRLInterfaceTRX.parse_cmd) is folded by the whitelisted evaluator for N = 1, 2, 32, 33, 63 and
+    64 channels (cmdfold; enable_fh recorded).  Required: enable_fh receives HSN, MAIO and exactly the N (Rx, Tx) pairs
+    of the command, in Hz, in order; then HoppingParams.__init__ / resolve folded on what was handed over select, for
+    cyclic hopping and every FN in 0..N-1, channel (FN + MAIO) mod N of the COMMANDED list.  An allocation that is
+    clipped, reordered or paired differently on its way makes the transceiver hop over other channels (other N, other
+    2^NBIN mask) than TS 45.002 6.2.3 gives for the configured MA and than the firmware, which gets the N channels
+    through L1CTL.  The reply text is C05's business, which parameters replace which C02's."""
+    from cmdfold import fold_parse_cmd
+    F0 = rel("ctrl_if_trx")
+    q = "CTRLInterfaceTRX.parse_cmd"
+    L.unit(F0)
+    L.fn(F0, q)
+    ci, init = repo.need_method("gsm_shared", "HoppingParams", "__init__")
+    _, resolve = repo.need_method("gsm_shared", "HoppingParams", "resolve")
+    _, pc = repo.need_method("ctrl_if_trx", "CTRLInterfaceTRX", "parse_cmd")
+    rps = [a.arg for a in resolve.args.args]
+    mod = ci.mod
+    skip = (Unknown, Raised, TypeError, ValueError, ArithmeticError, LookupError, AttributeError, RecursionError)
+    consts = {}
+    for name, node in ci.attrs.items():
+        try:
+            consts["self." + name] = Ev(repo, mod, self_cls=ci).ev(node)
+        except (Unknown, Raised):
+            pass
+
+    def selected(args, n):
+        """channels resolve(0..n-1) selects on the object built from what enable_fh received; None: not folded"""
+        try:
+            ev = ObjEv(repo, mod, self_cls=ci)
+            ev.env = dict(ev._bindargs(init, ["<self>"] + list(args), {}))
+            del ev.env[init.args.args[0].arg]
+            ev.run_block(init.body)
+            obj = dict(consts)
+            obj.update({k: v for k, v in ev.env.items() if isinstance(k, str) and k.startswith("self.")})
+            out = []
+            for fn in range(n):
+                r = ObjEv(repo, mod, env=dict(obj, **{rps[1]: fn}), self_cls=ci).run_block(resolve.body)
+                v = r[1] if isinstance(r, tuple) and len(r) == 2 and r[0] == "ret" else None
+                out.append(tuple(v) if isinstance(v, list) else v)
+            return out
+        except skip as e:
+            L.extra.setdefault("setfh_selection", []).append("N = %d: not folded (%s)" % (n, str(e)[:80]))
+            return None
+    k = 0
+    for n in SETFH_N:
+        khz = [(935200 + 200 * c, 890200 + 200 * c) for c in range(n)]          # ascending, as the command expects
+        want = [(r * 1000, t * 1000) for r, t in khz]
+        req = ["SETFH", "0", str(SETFH_MAIO)] + [str(x) for pr in khz for x in pr]
+        f = fold_parse_cmd(repo, req)
+        calls = [c for c in f.calls if c[0] == "enable_fh"]
+        key = "CMD SETFH with %d channels hands HSN, MAIO and all %d (Rx, Tx) pairs of the command, in order, to enable_fh" % (n, n)
+        req_txt = "enable_fh(0, %d, [%d pairs: %s])" % (SETFH_MAIO, n, ", ".join(map(str, want[:1] + want[-1:] if n > 1 else want)))
+        k += 1
+        if len(calls) != 1 or calls[0][2]:
+            L.ob("C07.R13", F0, q, key, req_txt, "%d calls of enable_fh (status %r%s)" % (
+                len(calls), f.ret, ", raises %s" % f.raised if f.raised else ""), False, pc.lineno)
+            continue
+        a = list(calls[0][1])
+        if len(a) == 1 and isinstance(a[0], (list, tuple)) and len(a[0]) == 3:
+            a = list(a[0])
+        ma = [tuple(x) if isinstance(x, (list, tuple)) else x for x in a[2]] if len(a) == 3 and isinstance(a[2], (list, tuple)) else None
+        ok = ma is not None and a[0] == 0 and a[1] == SETFH_MAIO and ma == want
+        if ok:
+            found = req_txt
+        elif ma is None:
+            found = "enable_fh%r" % (tuple(a),)
+        else:
+            d = next((i for i in range(min(len(ma), n)) if ma[i] != want[i]), min(len(ma), n))
+            found = "enable_fh(%r, %r, [%d pairs%s])" % (a[0], a[1], len(ma), "" if d >= len(ma) and d >= n else
+                                                        "; entry %d is %r, commanded %r" % (d, ma[d] if d < len(ma) else None, want[d] if d < n else None))
+        L.ob("C07.R13", F0, q, key, req_txt, found[:300], ok, pc.lineno)
+        if ma is None:
+            continue
+        sel = selected(a, n)
+        if sel is None:
+            continue
+        k += 1
+        wsel = [want[(fn + SETFH_MAIO) % n] for fn in range(n)]
+        bad = [fn for fn in range(n) if sel[fn] != wsel[fn]]
+        L.ob("C07.R13", F_GSM, "HoppingParams.resolve",
+             "after CMD SETFH with %d channels (HSN 0, MAIO %d) resolve(FN) selects channel (FN + MAIO) mod %d of the commanded list for FN = 0..%d" % (
+                 n, SETFH_MAIO, n, n - 1), "equal for all %d frame numbers" % n,
+             "equal for all %d frame numbers" % n if not bad else "FN = %d: %r selected, commanded MA[%d] = %r; differs for %d of %d" % (
+                 bad[0], sel[bad[0]], (bad[0] + SETFH_MAIO) % n, wsel[bad[0]], len(bad), n), not bad, resolve.lineno)
+    L.floor("C07.R13", "SETFH commands folded", k, len(SETFH_N))
 
 
 # ------------------------------------------------------------------------------
@@ -4965,6 +5432,8 @@ def run(L, tier):
     L.stage(r5_py_bound, L, py_s, ptab)
     L.stage(r5_c_bound, L, cs_s, ctab)
     L.stage(r6_py_returns, L, py_s)
+    L.stage(r6_getter_fold, L, repo)
+    L.stage(r13_setfh_allocation, L, repo, spec)
     L.stage(r6_getters, L, repo)
     L.stage(r6_c_use, L, cs, spec["RNTABLE"])
     L.stage(r6_c_split, L, cs, spec["RNTABLE"])
@@ -4973,4 +5442,5 @@ def run(L, tier):
     L.stage(r10_c_getter_state, L, gen, spec)
     L.stage(r8_descriptor_writers, L, tier)
     L.stage(r11_takeover, L, tier)
+    L.stage(r14_l1ctl_byte_order, L, tier)
     _LAYER1_TUS.pop(id(L), None)
